@@ -416,6 +416,24 @@ func (m *Machine) iteChain(cells []*Cell, idx *Term) Value {
 	if !ok {
 		m.unsupported("symbolic index into non-scalar array")
 	}
+	if idx.op == OpIte && idx.cl {
+		// the index is a finite case split over constants: look each case up directly
+		allConst := true
+		for _, c := range cells {
+			if t, ok := c.v.(*Term); !ok || t.op != OpConst {
+				allConst = false
+				break
+			}
+		}
+		if allConst {
+			return m.ts.mapLeaves(idx, func(l *Term) *Term {
+				if l.val < uint64(len(cells)) {
+					return cells[l.val].v.(*Term)
+				}
+				return cells[0].v.(*Term)
+			}, map[*Term]*Term{})
+		}
+	}
 	for k := len(cells) - 2; k >= 0; k-- {
 		r = m.ts.Ite(m.ts.Eq(idx, m.ts.Const(64, uint64(k))), cells[k].v.(*Term), r)
 	}
